@@ -33,7 +33,8 @@ RULE_C04 = ('one run = one language specification (seeded generator with nested 
 RULE_C17 = ('one run = one valid multi-file MAL program and 4-10 seeded damages of what the compiler '
             'reads from one of its files (truncate, drop a range, duplicate a range, overwrite 1-8 '
             'bytes with MAL alphabet, zero a block; half of the offsets on token boundaries), injected '
-            'at the FileStream seam. Oracle: the repository\'s own lexer/parser with a counting parser '
+            'at the FileStream seam, or written to disk in a second directory with the same file names '
+            '(compiled after the intact tree) or in a sub-directory the root\'s includes point into. Oracle: the repository\'s own lexer/parser with a counting parser '
             'error listener over the include closure; if it reports an error, compile and '
             'from_mal_spec must raise. non-trivial = >=1 damage the grammar rejects and >=1 in an '
             'included file; distinct = distinct event-log digest')
@@ -46,7 +47,9 @@ ASSUMPTIONS = [
     'errors on everything it prints; compile(print(coreLang)) equals malc\'s langspec.json)',
     'top-level lists (categories, assets, associations) are compared as multisets: merge order follows '
     'include position and is not promised',
-    'sub-directory includes and re-use of one compiler instance across directories are unspecified and not generated',
+    'how include names with a directory part are resolved, and re-use of one compiler instance across '
+    'directories, are unspecified: with sub-directory includes only "no file that was read and parsed may be '
+    'malformed unless the compile fails" is judged',
     'C17: lexer-only errors are not required to raise; a cut after a complete declaration is grammatical '
     '(rule mal does not demand EOF)',
 ]
@@ -320,8 +323,19 @@ class SourceWorld(BaseWorld):
         data = ''.join(rng.choice(MAL_ALPHABET) for _ in range(rng.randint(1, 8)))
         if kind == 'keyword':           # reserved-word misuse: an identifier becomes a reserved token
             data = rng.choice(['A', 'C', 'I', 'E', 'asset', 'let', 'info', 'category', 'extends'])
-        return {'op': 'damaged_read', 'file': target, 'kind': kind, 'pos': pos, 'len': ln,
-                'data': data, 'how': rng.choice(['compiler', 'compiler', 'from_mal_spec', 'reuse_retry'])}
+        op = {'op': 'damaged_read', 'file': target, 'kind': kind, 'pos': pos, 'len': ln,
+              'data': data, 'how': rng.choice(['compiler', 'compiler', 'from_mal_spec', 'reuse_retry'])}
+        r = rng.random()
+        if r < 0.12 and kind != 'eio':
+            # the damaged file really is on disk, in a second directory that holds a tree
+            # with the same file names; the intact tree is compiled first
+            op.update(op='twin_dirs', how=rng.choice(['compiler', 'from_mal_spec', 'from_mal_spec']))
+        elif r < 0.27 and kind != 'eio' and nfiles > 1:
+            # ... or in a sub-directory the root's include lines point into, next to an
+            # intact copy with the same name at the top level
+            op.update(op='shadow_tree', how=rng.choice(['compiler', 'from_mal_spec']),
+                      file=rng.randrange(1, nfiles))
+        return op
 
     def apply(self, op):
         self.count('op:' + op['op'])
@@ -329,6 +343,10 @@ class SourceWorld(BaseWorld):
             return self.do_compile_layout(op)
         if op['op'] == 'damaged_read':
             return self.do_damaged_read(op)
+        if op['op'] == 'twin_dirs':
+            return self.do_twin_dirs(op)
+        if op['op'] == 'shadow_tree':
+            return self.do_shadow_tree(op)
         raise Unresolvable()
 
     def do_compile_layout(self, op):
@@ -495,6 +513,105 @@ class SourceWorld(BaseWorld):
                             f'stderr: {self.last_stderr[:200]!r}')
         self.count('out:raised')
         return ['damaged_read', 'raised', '']
+
+    def _copy_tree(self, dst, damaged=None, rewrite_root=None):
+        """The program's files written again under dst (name -> text overrides in damaged)."""
+        src = os.path.join(self.dir, 'prog')
+        os.makedirs(dst, exist_ok=True)
+        for i, name in enumerate(self.files):
+            with open(os.path.join(src, name), encoding='utf-8') as f:
+                text = f.read()
+            if damaged and name in damaged:
+                text = damaged[name]
+            if rewrite_root and i == 0:
+                text = rewrite_root(text)
+            with open(os.path.join(dst, name), 'w', encoding='utf-8') as f:
+                f.write(text)
+
+    def do_twin_dirs(self, op):
+        """History: the intact tree in one directory is compiled, then a tree with the same
+        file names in another directory, one file of which is damaged on disk."""
+        if op['file'] >= len(self.files):
+            raise Unresolvable()
+        name = self.files[op['file']]
+        with open(os.path.join(self.dir, 'prog', name), encoding='utf-8') as f:
+            orig = f.read()
+        dmg = self._damage(orig, op)
+        if dmg == orig:
+            self.count('out:no_change')
+            return ['twin_dirs', 'no_change', '']
+        self.ntwin = getattr(self, 'ntwin', 0) + 1
+        good, bad = (os.path.join(self.dir, f'twin{self.ntwin}{x}') for x in 'ab')
+        self._copy_tree(good)
+        self._copy_tree(bad, {name: dmg})
+        nerr, seen = self._oracle_closure_errors(bad, self.files[0], {})
+        how = op.get('how', 'compiler')
+        first = self._compile(os.path.join(good, self.files[0]), how=how)
+        o = self._compile(os.path.join(bad, self.files[0]), how=how)
+        self.count('fault:damaged_file_on_disk_in_second_directory')
+        if first.raised:
+            raise SetupRejected('c17:valid program does not compile:' + first.exc_name())
+        if nerr == 0:
+            self.count('out:benign_for_grammar')
+            return ['twin_dirs', 'benign', '']
+        self.rejected_damages += 1
+        if op['file'] > 0:
+            self.included_damages += 1
+        self.count('oracle:C17.rejected')
+        if not o.raised:
+            raise Violation('C17.rejected',
+                            f'{op["kind"]} at offset {op["pos"]} of {name} ({nerr} parser error(s) by '
+                            f'the grammar) in a second directory, after the intact tree with the same '
+                            f'file names was compiled from another directory: {how} returned a '
+                            f'specification with {len(o.value.get("assets", []))} assets instead of failing')
+        self.count('out:raised')
+        return ['twin_dirs', 'raised', '']
+
+    def do_shadow_tree(self, op):
+        """The root names its includes as "sub/<file>"; sub/ holds a copy of the tree in which
+        one file is damaged, the top level an intact copy.  Whatever rule the compiler uses to
+        find includes: no file it reads and parses may be malformed without the compile failing."""
+        if op['file'] >= len(self.files) or op['file'] == 0:
+            raise Unresolvable()
+        name = self.files[op['file']]
+        with open(os.path.join(self.dir, 'prog', name), encoding='utf-8') as f:
+            orig = f.read()
+        dmg = self._damage(orig, op)
+        if dmg == orig or self._oracle_errors_text(dmg) == 0:
+            self.count('out:benign_for_grammar')
+            return ['shadow_tree', 'benign', '']
+        self.nshadow = getattr(self, 'nshadow', 0) + 1
+        top = os.path.join(self.dir, f'shadow{self.nshadow}')
+        self._copy_tree(top, rewrite_root=lambda t: t.replace('include "', 'include "sub/'))
+        self._copy_tree(os.path.join(top, 'sub'), {name: dmg})
+        read = []
+        real = self.comp.FileStream
+
+        def recording(path, encoding='ascii', errors='strict'):
+            st = real(path, encoding, errors)
+            read.append((os.path.relpath(path, top), str(st)))
+            return st
+        self.comp.FileStream = recording
+        try:
+            o = self._compile(os.path.join(top, self.files[0]), how=op.get('how', 'compiler'))
+        finally:
+            self.comp.FileStream = real
+        self.count('fault:damaged_file_on_disk_in_sub_directory')
+        bad = [(rel, self._oracle_errors_text(text)) for rel, text in read]
+        bad = [(rel, n) for rel, n in bad if n]
+        if not bad:
+            self.count('out:damaged_copy_not_read_' + ('raised' if o.raised else 'compiled'))
+            return ['shadow_tree', 'not_read', '']
+        self.rejected_damages += 1
+        self.included_damages += 1
+        self.count('oracle:C17.rejected')
+        if not o.raised:
+            raise Violation('C17.rejected',
+                            f'{bad[0][0]} was read while compiling and does not conform to the grammar '
+                            f'({bad[0][1]} parser error(s)), yet {op.get("how", "compiler")} returned a '
+                            f'specification with {len(o.value.get("assets", []))} assets')
+        self.count('out:raised')
+        return ['shadow_tree', 'raised', '']
 
     def _unreadable_file(self, op, name, d):
         """The read of one file of the tree fails with EIO: the compiler must not
